@@ -182,6 +182,67 @@ impl TypeScheme {
         *self = type_scheme;
     }
 
+    /// Like `generalize`, but the variables in `leading` are quantified first, in the given
+    /// order, followed by the remaining free variables. The where-locals of a function are
+    /// generalized this way (with the free variables of the function type as `leading`), so
+    /// that their quantified variables are numbered like the function's own type variables.
+    pub(crate) fn generalize_with_leading(
+        &mut self,
+        dtype_variables: &[TypeVariable],
+        leading: &[TypeVariable],
+    ) {
+        let TypeScheme::Concrete(type_) = self else {
+            return;
+        };
+
+        let mut variables = leading.to_vec();
+        for v in type_.type_variables(true) {
+            if !variables.contains(&v) {
+                variables.push(v);
+            }
+        }
+
+        let bounds = dtype_variables
+            .iter()
+            .filter(|v| type_.contains(v, true))
+            .map(|v| Bound::IsDim(Type::TVar(v.clone())))
+            .collect();
+        let qualified_type = QualifiedType::new(type_.clone(), bounds);
+
+        *self = qualified_type.quantify(&variables);
+    }
+
+    /// Readable type in which the first quantified variables carry the given names (the
+    /// names under which an enclosing function signature is printed).
+    pub(crate) fn to_readable_type_with_names(
+        &self,
+        registry: &crate::dimension::DimensionRegistry,
+        leading_names: &[TypeVariable],
+    ) -> crate::markup::Markup {
+        match self {
+            TypeScheme::Concrete(t) => t.to_readable_type(registry),
+            TypeScheme::Quantified(n_gen, _) => {
+                let mut names: Vec<TypeVariable> =
+                    leading_names.iter().take(*n_gen).cloned().collect();
+                let mut candidate = 0usize;
+                while names.len() < *n_gen {
+                    let name = if candidate < 26 {
+                        TypeVariable::new(format!("{}", (b'A' + candidate as u8) as char))
+                    } else {
+                        TypeVariable::new(format!("T{candidate}"))
+                    };
+                    candidate += 1;
+                    if !names.contains(&name) {
+                        names.push(name);
+                    }
+                }
+                self.instantiate_with(&names)
+                    .inner
+                    .to_readable_type(registry)
+            }
+        }
+    }
+
     fn type_variables(&self, including_type_parameters: bool) -> Vec<TypeVariable> {
         match self {
             TypeScheme::Concrete(t) => t.type_variables(including_type_parameters),
